@@ -5,6 +5,7 @@ reflection over the real structs).
 -/
 import Smpp.Model.Pdu
 import Smpp.Generated.Layouts
+import Smpp.Spec.SmppV5Layout
 
 namespace Driver
 open Smpp Smpp.Pdu
@@ -235,6 +236,21 @@ def pduOp (op : String) (args : List String) : Option String :=
       | .ok b => some s!"ok {toHex b}"
       | .err e => some s!"skip marshal:{showErr e}"
       | .panic _ => some "panic"
+  | "spec", ty :: toks => do
+    -- the frame the INDEPENDENT specification table prescribes (Spec/SmppV5Layout.lean)
+    let L ← layoutByName ty
+    let (v, rest) ← pVals L.fields toks
+    if !rest.isEmpty then none else
+    match v, Smpp.Spec.specOf L.id with
+    | .header h :: vals, some op =>
+      if !(vals.all Smpp.Spec.expressible) || !h.seqPos then some "not-carried" else
+      -- a field the Go codec skips is still a parameter of the specification (1-octet integer)
+      let body := vals.flatMap fun x => match x with
+        | .skipped n => [UInt8.ofNat n]
+        | y => Smpp.Spec.param L.isReplace y
+      if 16 + body.length > 65536 then some "not-carried" else
+      some s!"ok {toHex (Smpp.Spec.int4 (16 + body.length) ++ Smpp.Spec.int4 op.id ++ Smpp.Spec.int4 h.status.toNat ++ Smpp.Spec.int4 h.seq.toNat ++ body)}"
+    | _, _ => some "no-spec"
   | _, _ => none
 
 end Driver
